@@ -9,6 +9,7 @@ import (
 	"io"
 	"math/rand/v2"
 	"net"
+	"net/http"
 	"os"
 	"os/exec"
 	"path/filepath"
@@ -17,6 +18,8 @@ import (
 	"sync"
 	"testing"
 	"time"
+
+	pwebrtc "github.com/pion/webrtc/v4"
 
 	"github.com/bluenviron/mediamtx/internal/test"
 	"verif.local/vmon"
@@ -233,6 +236,68 @@ func c35UDP(rng *rand.Rand, kind string) []byte {
 	}
 }
 
+// c35WHIP opens a WebRTC publishing session anonymously with a real offer (pion) and then sends hostile
+// trickle-ICE PATCH requests and deletions to the session URL.
+func c35WHIP(rng *rand.Rand, genMu *sync.Mutex, port int, hc *http.Client) string {
+	pc, err := pwebrtc.NewPeerConnection(pwebrtc.Configuration{})
+	if err != nil {
+		return "pc-error"
+	}
+	defer pc.Close() //nolint:errcheck
+	pc.AddTransceiverFromKind(pwebrtc.RTPCodecTypeVideo, pwebrtc.RTPTransceiverInit{Direction: pwebrtc.RTPTransceiverDirectionSendonly}) //nolint:errcheck
+	offer, err := pc.CreateOffer(nil)
+	if err != nil {
+		return "offer-error"
+	}
+	genMu.Lock()
+	name := []string{"w1", "w2", "live/x"}[rng.IntN(3)]
+	kind := []string{"whip", "whep"}[rng.IntN(2)]
+	genMu.Unlock()
+	req, _ := http.NewRequest(http.MethodPost, fmt.Sprintf("http://127.0.0.1:%d/%s/%s", port, name, kind), strings.NewReader(offer.SDP))
+	req.Header.Set("Content-Type", "application/sdp")
+	res, err := hc.Do(req)
+	if err != nil {
+		return "post-error"
+	}
+	io.Copy(io.Discard, res.Body) //nolint:errcheck
+	res.Body.Close()
+	loc := res.Header.Get("Location")
+	if res.StatusCode != http.StatusCreated || loc == "" {
+		return fmt.Sprintf("post -> %d", res.StatusCode)
+	}
+	if !strings.HasPrefix(loc, "http") {
+		loc = fmt.Sprintf("http://127.0.0.1:%d%s", port, loc)
+	}
+	frags := []string{
+		"a=candidate:1 1 udp 2130706431 127.0.0.1 9 typ host\r\n",
+		"a=ice-ufrag:x\r\na=candidate:1 1 udp 2130706431 127.0.0.1 9 typ host\r\n",
+		"a=ice-ufrag:x\r\na=ice-pwd:" + strings.Repeat("y", 30) + "\r\nm=video 9 UDP/TLS/RTP/SAVPF 96\r\na=mid:0\r\na=candidate:1 1 udp 2130706431 127.0.0.1 9 typ host\r\n",
+		"a=ice-pwd:zzzz\r\n", "m=audio 9 RTP/AVP 0\r\na=mid:99\r\na=candidate:x\r\n", "a=end-of-candidates\r\n", "", "a=candidate:\r\n", "a=mid:0\r\na=candidate:1 1 tcp 1 ::1 0 typ relay raddr :: rport 0\r\n", strings.Repeat("a=candidate:1 1 udp 1 1.1.1.1 1 typ host\r\n", 300),
+	}
+	out := "session"
+	for k := 0; k < 4; k++ {
+		genMu.Lock()
+		body := strings.ReplaceAll(frags[rng.IntN(len(frags))], "\\r\\n", "\r\n")
+		method := []string{http.MethodPatch, http.MethodPatch, http.MethodPatch, http.MethodDelete, http.MethodPost}[rng.IntN(5)]
+		ifMatch := []string{"*", "", "x"}[rng.IntN(3)]
+		genMu.Unlock()
+		r2, _ := http.NewRequest(method, loc, strings.NewReader(body))
+		r2.Header.Set("Content-Type", "application/trickle-ice-sdpfrag")
+		if ifMatch != "" {
+			r2.Header.Set("If-Match", ifMatch)
+		}
+		res2, err2 := hc.Do(r2)
+		if err2 != nil {
+			return out + " patch-error"
+		}
+		io.Copy(io.Discard, res2.Body) //nolint:errcheck
+		res2.Body.Close()
+		out = fmt.Sprintf("session %s -> %d", method, res2.StatusCode)
+		time.Sleep(20 * time.Millisecond)
+	}
+	return out
+}
+
 func TestVerifC35(t *testing.T) {
 	if os.Getenv("VERIF_CHILD") != "" {
 		c35ChildMain()
@@ -282,6 +347,7 @@ func TestVerifC35(t *testing.T) {
 	crashes := 0
 	// one sender per target, all running at once (the generators share one PRNG: serialized by genMu)
 	var genMu sync.Mutex
+	whipHC := &http.Client{Timeout: 5 * time.Second}
 	batch := 64
 	for done := 0; done < n; done += batch * len(targets) / len(targets) {
 		var wg sync.WaitGroup
@@ -319,7 +385,17 @@ func TestVerifC35(t *testing.T) {
 				}
 			}()
 		}
+		wg.Add(1)
+		go func() {
+			defer wg.Done()
+			for k := 0; k < 3; k++ {
+				o := c35WHIP(rng, &genMu, ports["webrtc"], whipHC)
+				r.SetAdd("webrtc_session_outcomes", o)
+				r.Eval(fmt.Sprintf("whip-session|%d|%d", done, k))
+			}
+		}()
 		wg.Wait()
+		time.Sleep(50 * time.Millisecond)
 		if !child.alive() {
 			msg, site := child.crashInfo()
 			crashes++
@@ -340,6 +416,6 @@ func TestVerifC35(t *testing.T) {
 	for _, tg := range targets {
 		r.Sample(map[string]any{"listener": tg.name, "transport": tg.proto, "port": tg.port})
 	}
-	r.Finish("the real server (core.New) in a child process with every listener enabled (RTSP TCP + UDP RTP / RTCP, RTMP, SRT, WebRTC HTTP + UDP, HLS, MoQ HTTP + QUIC, Control API, playback, metrics, pprof) and default authentication; unauthenticated inputs round-robin over 16 targets: generated RTSP request sequences (hostile methods, URLs, CSeq, Content-Length, Transport, Session, Authorization, Range; SDP bodies; interleaved frames), RTMP handshakes followed by chunks with hostile lengths / types / AMF fragments, HTTP requests per endpoint family (hostile paths, queries, headers, JSON / SDP / ICE bodies, wrong Content-Length), mutated HTTP/2 prefaces, random bytes, RTP / RTCP datagrams, SRT handshakes with hostile fields, STUN messages with hostile attributes, QUIC initial packets. Oracle: the process is alive after every batch of 16 inputs and at the end; a crash is reported with the panic site from its stderr. non-trivial = distinct (listener, input)",
+	r.Finish("the real server (core.New) in a child process with every listener enabled (RTSP TCP + UDP RTP / RTCP, RTMP, SRT, WebRTC HTTP + UDP, HLS, MoQ HTTP + QUIC, Control API, playback, metrics, pprof) and default authentication; unauthenticated inputs round-robin over 16 targets: generated RTSP request sequences (hostile methods, URLs, CSeq, Content-Length, Transport, Session, Authorization, Range; SDP bodies; interleaved frames), RTMP handshakes followed by chunks with hostile lengths / types / AMF fragments, HTTP requests per endpoint family (hostile paths, queries, headers, JSON / SDP / ICE bodies, wrong Content-Length), mutated HTTP/2 prefaces, random bytes, RTP / RTCP datagrams, SRT handshakes with hostile fields, STUN messages with hostile attributes, QUIC initial packets; plus a stateful actor that opens WHIP / WHEP sessions anonymously with a real offer (pion) and sends hostile trickle-ICE PATCH / DELETE / POST requests to the session URL. Oracle: the process is alive after every batch of 16 inputs and at the end; a crash is reported with the panic site from its stderr. non-trivial = distinct (listener, input)",
 		"TLS listeners other than MoQ's are not enabled (their TCP payload reaches the same handlers after the TLS layer); inputs are stateless sequences, not long sessions")
 }
